@@ -64,6 +64,10 @@ PROPS = {
         "rule": "sets of 2-4 (thorough: up to 16) goroutines; a shared prefix builds read-only tensors in three layouts (contiguous, lazily transposed, sliced); every goroutine runs a seeded program of reads (dump, At sweep, iteration, slicing, Clone, Materialize, safe arithmetic / comparison / unary operations on the shared tensors) and of writes to its own private tensors; harness built with -race, run under GOMAXPROCS 1,2,4,16 with seeded Gosched injection and repetitions; every goroutine's observations are compared with the sequential model run of prefix+its program; any race report or divergence is a violation",
         "assumptions": ["the Go race detector only reports races that occur in the explored schedules; the Lean theorem is about interleavings of the abstract effect model, not about the Go memory model"],
     },
+    "C19": {
+        "lean_modules": ["C19"],
+        "rule": "seeded operation histories of 5-40 (thorough: 5-200) steps over a population of 2-8 live tensors (construction row-/column-major, lazy and physical transposes, UT, slicing, Clone, Materialize, SafeT, Reshape, Memset, arithmetic / unary operations in safe, unsafe, reuse and incr modes with destinations drawn from the population, ReturnTensor, pool on/off, forced GC); after every step every live tensor is dumped (metadata, elements, raw storage) and compared with the value-semantics model; every int slice the harness passes to the library is kept, re-checked after every later step (argmut) and occasionally overwritten by the harness (scribble) to expose retained caller slices",
+    },
     "C20": {
         "lean_modules": ["C20"],
         "builds": [["default", "verif"], ["noasm", "verif noasm"], ["inplace", "verif inplacetranspose"]],
